@@ -287,6 +287,9 @@ Fixpoint final_bindings (l : list (string * origin)) : list (string * origin) :=
 Record nenv := {
   ne_sym : bool;        (* bound in the current symbol table (module level: the global table) *)
   ne_global : bool;     (* bound in the global table while a function's table is current *)
+  ne_local : bool;      (* the evaluator's local table still holds the functions installed by install_ast_funcs;
+                           false inside trigger string expressions: AstEval.eval(new_state_vars) REPLACES that table
+                           by the trigger variables *)
   ne_pybuiltin : bool   (* hasattr(builtins, name) *)
 }.
 Inductive nkind :=
@@ -300,10 +303,10 @@ Inductive nkind :=
 
 Definition name_lookup (e : nenv) (n : string) : nkind :=
   if ne_sym e then KUser
-  else match assoc n logger_funcs with
+  else match (if ne_local e then assoc n logger_funcs else None) with
        | Some lvl => KLogger lvl                      (* local_sym_table, installed per evaluator *)
        | None =>
-         if str_mem n other_ast_funcs then KAstFunc
+         if ne_local e && str_mem n other_ast_funcs then KAstFunc
          else if ne_global e then KUser
          else if str_mem n ast_factory_funcs then KFactory
          else if ne_pybuiltin e && negb (str_mem n builtin_exclude) && negb (starts_underscore n) then KBuiltin
